@@ -572,4 +572,35 @@ def check_C08(pid, tier, seed, verdict):
                  "tables of sessions behind the real front-ends are not reachable"]
 
 
-CHECKS = {"C08": check_C08, "C19": check_C19, "C18": check_C18, "C15": check_C15, "C06": check_C06, "C17": check_C17, "C16": check_C16, "C07": check_C07, "C12": check_C12, "C13": check_C13, "C10": check_C10, "C14": check_C14, "C09": check_C09, "C11": check_C11, "C01": check_C01, "C02": check_C02, "C03": check_C03, "C04": check_C04, "C05": check_C05}
+# ------------------------------------------------------------------------------------------- C20
+def check_C20(pid, tier, seed, verdict):
+    thorough = tier == "thorough"
+    g1 = V.run_gen(pid, "MC_Hostile.tla", "MC_Hostile.cfg")
+    g2 = V.run_gen(pid, "MC_Hostile.tla", "MC_Hostile2.cfg", timeout_s=1200)
+    mcs = [g1, g2]
+    scs = g1["scenarios"] + V.sample(g2["scenarios"], None if thorough else 500, seed)
+    sp = os.path.join(V.workdir(pid), "gen.scn")
+    V.write_scenarios(sp, scs)
+    run = V.run_harness(pid, "hostile", seed, tier, sp, timeout_s=3000)
+    res = V.run_trace(pid, "Trace_Hostile.tla", "Trace_Hostile.cfg", run["trace"])
+    verdict.add_trace_result("hostile", res, run)
+    cnt = res["cnt"]
+    V.log(f"[{pid}] trace: {cnt['hsess']} hostile inputs to sessions, {cnt['hlisten']} to listeners / UDP streams, bad={len(res['bad'])}")
+    cov = _cov(mcs, cnt["scn"], cnt["nontrivial"],
+               "scenario = a real Session of either role with an open stream, a sibling stream, a finished and a never-opened id "
+               "and a sibling session, receiving one hostile frame of the abstract alphabet of Hostile.tla (ALL 244 single frames: "
+               "command 0..10/unknown x id zero/open/finished/never x payload empty/garbage/valid or odd settings/schemes with "
+               "huge, negative, non-numeric sizes/65535 bytes) or a sequence of two (29768 enumerated, quick samples 500), random "
+               "byte strings, and valid traffic mutated by bit flips, truncation, duplication, reordering and length-field "
+               "corruption; 90 s of virtual time; then probes (data both ways on the sibling stream, a new open, or the clauses "
+               "of a clean close, every operation under a timeout, panics counted by a hook); plus garbage and mutated requests "
+               "to the real SOCKS5 / HTTP listeners and garbage inside a UDP-over-TCP stream with a sibling check; non-trivial = "
+               "inputs whose outcome was judged", V.sample_descrs(run["descr"]), True,
+               dict(behaviours_generated=len(g1["scenarios"]) + len(g2["scenarios"]), behaviours_replayed=len(scs),
+                    trace_events=res["lines"], event_counts=cnt))
+    return cov, ["'all byte strings' is sampled; only the abstract frame alphabet is exhaustive",
+                 "after arbitrary bytes the framing is desynchronised: only panics, wedges, unclean closes and effects on the "
+                 "other session are judged there", "stalling without closing (slow loris) is not input in the statement's sense"]
+
+
+CHECKS = {"C20": check_C20, "C08": check_C08, "C19": check_C19, "C18": check_C18, "C15": check_C15, "C06": check_C06, "C17": check_C17, "C16": check_C16, "C07": check_C07, "C12": check_C12, "C13": check_C13, "C10": check_C10, "C14": check_C14, "C09": check_C09, "C11": check_C11, "C01": check_C01, "C02": check_C02, "C03": check_C03, "C04": check_C04, "C05": check_C05}
